@@ -1,10 +1,10 @@
 import Hgxv.Model.C02
-import Hgxv.Proofs.C02Basic
+import Hgxv.Proofs.C02All
 /-! # C02 - property theorems (DirectedHypergraph faithfully stores (source set, target set) hyperedges)
 
 Model: `Hgxv/Model/C02.lean` (concrete `Store` mirroring `core/directed_hypergraph.py` after the `fix:` commits
 D5-D11, abstract `Spec`); helper lemmas: `Hgxv/Proofs/C02*.lean`. -/
-open C02
+open C02 AL
 
 /-- **The order in which the nodes of a source or target set are listed is irrelevant.**
 Two listings of the same source set and the same target set (`List.Perm`) have the same canonical key, hence every
@@ -45,3 +45,291 @@ example :
     let s1 := (addEdge s0 (.ofLists [3, 1] [2]) (some 6) none).1
     let s2 := (addEdge s1 (.ofLists [1, 3] [2]) (some 2) none).1
     edges s2 .all false = some [([1, 3], [2])] ∧ getWeight s2 (.ofLists [3, 1] [2]) = some 8 := by decide
+
+/-! ## Every history
+
+`Reachable s`: `s` is one of the objects of a state reached from nothing by ANY finite sequence of constructor calls,
+`copy`s and public mutating calls (`Cmd`), each satisfying the property's quantifier (`Cmd.WF`: hyperedges handed to
+the constructor / `add_edge` / `add_edges` have duplicate-free, disjoint, non-empty sides; nothing is assumed about
+the arguments of any other call, nor about acceptance). -/
+
+def C02.Reachable (s : Store) : Prop :=
+  ∃ (cs : List Cmd) (slot : Nat), (∀ c ∈ cs, c.WF) ∧ get? (runCmds [] cs) slot = some s
+
+/-- **Invariant for every history.**  After every prefix of every history, every object satisfies `Inv`:
+`_edge_list` and `_reverse_edge_list` are inverse bijections between canonical well-formed keys (sorted, duplicate-free,
+disjoint, non-empty sides) and ids below `_next_edge_id`; `_weights`/`_edge_metadata` have exactly those ids;
+`_adj_source[n]` (`_adj_target[n]`) is a duplicate-free list of exactly the ids of the hyperedges having `n` as a
+source (target); every node of a hyperedge has its rows; the three node tables have the same key set; no table has a
+duplicate key. -/
+theorem C02_inv (s : Store) (hr : Reachable s) : Inv s := by
+  obtain ⟨cs, slot, hcs, hs⟩ := hr
+  exact runCmds_inv [] cs hcs (fun _ _ h => by simp [get?] at h) slot s hs
+
+/-- the same for a single object and its mutating calls -/
+theorem C02_inv_object (w : Bool) (ops : List Op) (hops : ∀ o ∈ ops, o.WF) : Inv (run { weighted := w } ops) :=
+  run_inv _ ops hops (inv_init w [])
+
+/-- non-vacuity: a 12-command history (constructor with hyperedges, re-insertion in permuted order, removal,
+copy, remove_node with keep_edges, clear) satisfies the hypothesis, and its final objects are what one expects -/
+def C02.exampleHistory : List Cmd :=
+  [ .new 0 true none (some [(7, [(2, 3)])]) (some [.ofLists [2, 1] [3], ⟨.scalar 1, .nodes [3, 2]⟩]) (some [6, 4]) none,
+    .op 0 (.addEdge (.ofLists [1, 2] [3]) (some 2) (some [(2, 5)])),
+    .op 0 (.addEdge (.ofLists [3] [1, 2]) none none),
+    .op 0 (.addNode 7 (some [(3, 4)])),
+    .op 0 (.removeEdge (.ofLists [1] [2, 3])),
+    .copy 0 1,
+    .op 0 (.removeNode 2 true),
+    .op 1 (.removeNode 3 false),
+    .op 1 (.setWeight (.ofLists [9] [8]) 4),
+    .op 0 (.addEdges [.ofLists [4] [5, 6], .ofLists [5] [4]] (some [4, 8]) none),
+    .op 1 .clear,
+    .op 0 (.removeNodes [4] true) ]
+
+example : ∀ c ∈ exampleHistory, c.WF := cmds_WF_of_ok _ (by decide)
+example : (get? (runCmds [] exampleHistory) 0).map (fun s => (nodes s, keys s.edgeList, s.weights.map (·.2))) =
+    some ([7, 1, 3, 5, 6], [([1], [3]), ([3], [1])], [8, 4]) := by decide
+example : Reachable ((get? (runCmds [] exampleHistory) 0).getD {}) :=
+  ⟨exampleHistory, 0, cmds_WF_of_ok _ (by decide), by decide⟩
+
+/-- **A hyperedge is listed exactly once per role it plays for a node.**  For every reachable object, every present
+node `n` and every admissible order/size filter: `get_source_edges` / `get_target_edges` succeed and are, as multisets,
+the stored (source, target) pairs having `n` among the sources / targets and passing the filter - each exactly once
+(the lists are duplicate-free and the key list is), none else; `get_incident_edges` is their concatenation, and no
+hyperedge is in both lists. -/
+theorem C02_once_per_role (s : Store) (hr : Reachable s) (n : Node) (hn : checkNode s n = true)
+    (f : Filt) (t : Option Nat) (hf : f.target = some t) :
+    ∃ LS LT, sourceEdges s n f = some LS ∧ targetEdges s n f = some LT ∧ incident s n f = some (LS ++ LT) ∧
+      LS.Perm ((keys s.edgeList).filter (fun k => k.1.contains n && passes t false k)) ∧
+      LT.Perm ((keys s.edgeList).filter (fun k => k.2.contains n && passes t false k)) ∧
+      LS.Nodup ∧ LT.Nodup ∧ (∀ k ∈ LS, k ∉ LT) ∧
+      inDegree s n f = some LS.length ∧ outDegree s n f = some LT.length ∧ degree s n f = some (LS.length + LT.length) := by
+  have h := C02_inv s hr
+  have hS : (get? s.adjS n).isSome := hn
+  have hT : (get? s.adjT n).isSome := by rw [h.adj_same]; exact hS
+  obtain ⟨idsS, hS⟩ := Option.isSome_iff_exists.mp hS
+  obtain ⟨idsT, hT⟩ := Option.isSome_iff_exists.mp hT
+  have e1 := h.sourceEdges_eq n idsS hS f t hf
+  have e2 := h.targetEdges_eq n idsT hT f t hf
+  have p1 := h.sourceEdges_perm n idsS hS t
+  have p2 := h.targetEdges_perm n idsT hT t
+  refine ⟨_, _, e1, e2, ?_, p1, p2, ?_, ?_, ?_, ?_, ?_, ?_⟩
+  · simp [incident, e1, e2]
+  · exact (filterMap_rev_nodup s h idsS (h.adjS_nodup n idsS hS)).filter _
+  · exact (filterMap_rev_nodup s h idsT (h.adjT_nodup n idsT hT)).filter _
+  · intro k hk hk'
+    obtain ⟨⟨id, hid⟩, h1⟩ := h.sourceEdges_mem n f _ e1 k hk
+    obtain ⟨_, h2⟩ := h.targetEdges_mem n f _ e2 k hk'
+    exact (h.key_wf id k hid).disj n h1 h2
+  · simp [inDegree, e1]
+  · simp [outDegree, e2]
+  · simp [degree, incident, e1, e2]
+
+/-- non-vacuity: node 3 of the example is a target of `((1,),(3,))` and a source of `((3,),(1,))` -/
+example : let s := (get? (runCmds [] exampleHistory) 0).getD {}
+    sourceEdges s 3 .all = some [([3], [1])] ∧ targetEdges s 3 (.size 2) = some [([1], [3])] ∧ degree s 3 (.order 1) = some 2 := by
+  decide
+
+/-- **Direction is never lost or swapped.**  In every reachable object: every stored pair has non-empty disjoint
+sides, so it differs from its reverse; `get_sources`/`get_targets` are the first/second components of the stored
+pairs; a hyperedge is listed for node `n` in the source role iff `n` is in its FIRST component and in the target role
+iff `n` is in its SECOND; inserting `(S,T)` changes the presence of no other pair - in particular it does not make
+`(T,S)` present - and the key of `(T,S)` is never the key of `(S,T)`. -/
+theorem C02_direction (s : Store) (hr : Reachable s) :
+    (∀ k ∈ keys s.edgeList, k.1 ≠ [] ∧ k.2 ≠ [] ∧ (∀ n, n ∈ k.1 → n ∉ k.2) ∧ (k.2, k.1) ≠ k) ∧
+    sources s = (keys s.edgeList).map (·.1) ∧ targets s = (keys s.edgeList).map (·.2) ∧
+    (∀ n L, sourceEdges s n .all = some L → ∀ k, k ∈ L ↔ k ∈ keys s.edgeList ∧ n ∈ k.1) ∧
+    (∀ n L, targetEdges s n .all = some L → ∀ k, k ∈ L ↔ k ∈ keys s.edgeList ∧ n ∈ k.2) ∧
+    (∀ e w md k', k' ≠ canonAdd e → has (addEdge s e w md).1.edgeList k' = has s.edgeList k') ∧
+    (∀ e, RawWF e → canonAdd ⟨e.tgt, e.src⟩ ≠ canonAdd e) := by
+  have h := C02_inv s hr
+  refine ⟨?_, rfl, rfl, ?_, ?_, ?_, ?_⟩
+  · intro k hk
+    obtain ⟨id, hid⟩ := (h.mem_keys_iff k).mp hk
+    have wf := h.key_wf id k hid
+    refine ⟨wf.neS, wf.neT, wf.disj, ?_⟩
+    intro hc
+    have h1 : k.2 = k.1 := congrArg Prod.fst hc
+    cases hk1 : k.1 with
+    | nil => exact wf.neS hk1
+    | cons a t =>
+      have ha : a ∈ k.1 := by rw [hk1]; exact List.mem_cons_self
+      exact wf.disj a ha (h1 ▸ ha)
+  · intro n L hL k
+    obtain ⟨ids, t, ha, ht⟩ := sourceEdges_some s n .all L hL
+    have ht' : t = none := by simp [Filt.target] at ht; exact ht.symm
+    subst ht'
+    rw [h.sourceEdges_eq n ids ha .all none rfl] at hL
+    injection hL with hL; subst hL
+    rw [(h.sourceEdges_perm n ids ha none).mem_iff]
+    simp [passes_none]
+  · intro n L hL k
+    obtain ⟨ids, t, ha, ht⟩ := targetEdges_some s n .all L hL
+    have ht' : t = none := by simp [Filt.target] at ht; exact ht.symm
+    subst ht'
+    rw [h.targetEdges_eq n ids ha .all none rfl] at hL
+    injection hL with hL; subst hL
+    rw [(h.targetEdges_perm n ids ha none).mem_iff]
+    simp [passes_none]
+  · intro e w md k' hne
+    exact addEdgeKey_has_other s _ w md k' hne
+  · intro e he hc
+    have wf := keyWF_canonAdd e he
+    have h1 : sortNodes e.tgt.toList = sortNodes e.src.toList := congrArg Prod.fst hc
+    cases hk1 : e.src.toList with
+    | nil => exact he.neS hk1
+    | cons a t =>
+      have ha : a ∈ e.src.toList := by rw [hk1]; exact List.mem_cons_self
+      have : a ∈ sortNodes e.tgt.toList := by rw [h1]; exact mem_sortNodes.mpr ha
+      exact he.disj a ha (mem_sortNodes.mp this)
+
+/-- non-vacuity: `((1,),(3,))` and its reverse are both present in the example and are different hyperedges;
+    before the reverse was inserted it was absent although `((1,2),(3,))`... were present -/
+example : let s := (get? (runCmds [] exampleHistory) 0).getD {}
+    checkEdge s (.ofLists [1] [3]) = some true ∧ checkEdge s (.ofLists [3] [1]) = some true ∧
+    checkEdge (addEdge {} (.ofLists [1] [3]) none none).1 (.ofLists [3] [1]) = some false := by decide
+
+/-- **Node metadata survives hyperedge insertions.**  For EVERY store (reachable or not), every node that is present
+stays present and keeps exactly its metadata through `add_edge` and `add_edges`, whatever hyperedge, weight or
+metadata is given and whether or not the call is accepted.  (Before fix D5 this failed for every endpoint.) -/
+theorem C02_node_meta_survives_addEdge (s : Store) (m : Node) (hm : checkNode s m = true) :
+    (∀ e w md, checkNode (addEdge s e w md).1 m = true ∧ nodeMeta (addEdge s e w md).1 m = nodeMeta s m) ∧
+    (∀ es ws mds, checkNode (addEdges s es ws mds).1 m = true ∧ nodeMeta (addEdges s es ws mds).1 m = nodeMeta s m) := by
+  have hm' : (get? s.adjS m).isSome := hm
+  constructor
+  · intro e w md
+    have := addEdgeKey_node s (canonAdd e) w md m hm'
+    exact ⟨this.1, by simp only [nodeMeta, has, addEdge, this.1, this.2, hm', if_true]⟩
+  · intro es ws mds
+    have key : ∀ s0 : Store, s0.adjS = s.adjS → s0.nmeta = s.nmeta → ∀ ws' mds',
+        checkNode (addEdgesLoop s0 es ws' mds').1 m = true ∧ nodeMeta (addEdgesLoop s0 es ws' mds').1 m = nodeMeta s m := by
+      intro s0 h1 h2 ws' mds'
+      have := addEdgesLoop_node s0 es ws' mds' m (by rw [h1]; exact hm')
+      exact ⟨this.1, by simp only [nodeMeta, has, this.1, this.2, hm', h2, if_true]⟩
+    unfold addEdges
+    simp only []
+    generalize hs0 : (if (ws.isSome && !s.weighted) = true then { s with weighted := true } else s) = s0
+    have h1 : s0.adjS = s.adjS := by rw [← hs0]; split <;> rfl
+    have h2 : s0.nmeta = s.nmeta := by rw [← hs0]; split <;> rfl
+    split
+    · split
+      · exact ⟨by simp only [checkNode, h1]; exact hm, by simp only [nodeMeta, h1, h2]⟩
+      · exact key s0 h1 h2 _ _
+    · exact key s0 h1 h2 _ _
+
+/-- non-vacuity: node 7 carries `{2: 3}` from the constructor of the example through all later insertions -/
+example : nodeMeta ((get? (runCmds [] exampleHistory) 0).getD {}) 7 = some [(2, 3)] := by decide
+
+/-- **A removed node is gone from every listing.**  In every reachable object, after an accepted
+`remove_node(n, keep_edges)` (either mode): `n` is not a node, has no metadata entry and no adjacency row; no stored
+(source, target) pair, no `get_edges` answer under any filter, no entry of `get_sources`/`get_targets`, no hyperedge
+listed for any node in any role, no neighbour set mentions `n`; queries about `n` itself are rejected; and the result
+satisfies the invariant again (so all the other theorems apply to it). -/
+theorem C02_removed_node_gone (s : Store) (hr : Reachable s) (n : Node) (keep : Bool)
+    (hok : (removeNode s n keep).2 = .ok) :
+    let s' := (removeNode s n keep).1
+    Inv s' ∧ get? s'.adjS n = none ∧ get? s'.adjT n = none ∧ get? s'.nmeta n = none ∧
+    n ∉ nodes s' ∧ checkNode s' n = false ∧ nodeMeta s' n = none ∧
+    (∀ k ∈ keys s'.edgeList, n ∉ k.1 ∧ n ∉ k.2) ∧
+    (∀ f up L, edges s' f up = some L → ∀ k ∈ L, n ∉ k.1 ∧ n ∉ k.2) ∧
+    (∀ S ∈ sources s', n ∉ S) ∧ (∀ T ∈ targets s', n ∉ T) ∧
+    (∀ m f L, sourceEdges s' m f = some L → ∀ k ∈ L, n ∉ k.1 ∧ n ∉ k.2) ∧
+    (∀ m f L, targetEdges s' m f = some L → ∀ k ∈ L, n ∉ k.1 ∧ n ∉ k.2) ∧
+    (∀ m f L, incident s' m f = some L → ∀ k ∈ L, n ∉ k.1 ∧ n ∉ k.2) ∧
+    (∀ m f L, neighbors s' m f = some L → n ∉ L) ∧
+    (∀ f, sourceEdges s' n f = none ∧ targetEdges s' n f = none ∧ incident s' n f = none ∧ neighbors s' n f = none) := by
+  intro s'
+  obtain ⟨hinv, hg⟩ := removeNode_spec s n keep (C02_inv s hr)
+  have g := hg hok
+  exact ⟨hinv, g.adjS, g.adjT, g.nmeta, gone_queries hinv n g⟩
+
+/-- non-vacuity: removing node 2 with keep_edges=True from `{((1,2),(3,)):8, ((3,),(1,2)):4}` is accepted and yields
+`{((1,),(3,)):8, ((3,),(1,)):4}`; with a node whose removal empties a side the hyperedge is dropped -/
+example :
+    let s := (run { weighted := true } [.addEdge (.ofLists [1, 2] [3]) (some 8) none, .addEdge (.ofLists [3] [1, 2]) none none])
+    (removeNode s 2 true).2 = .ok ∧ weightsDict (removeNode s 2 true).1 .all false = some [(([1], [3]), 8), (([3], [1]), 4)] ∧
+    (removeNode s 3 true).2 = .ok ∧ edges (removeNode s 3 true).1 .all false = some [] := by decide
+
+/-! ## Refinement: the concrete store answers as the abstract object of its history
+
+`Spec` (in `Model/C02.lean`) is what the property names: a duplicate-free list of nodes with their metadata and an
+association list from (source set, target set) pairs - as sorted tuples - to (weight, metadata), plus the two flags.
+`Spec.step` is the obvious map update for every call; `abs` forgets ids, reverse table and adjacency. -/
+
+/-- **Simulation, every history.**  For every finite sequence of constructor calls, copies and public mutating calls
+satisfying the quantifier: the abstraction of the reached concrete state IS the state the same sequence produces on
+abstract objects (so after every prefix, every object `s` in slot `i` has `abs s` as its abstract twin), every call
+is accepted / rejected identically, and a copy is an independent object (it is a separate slot on both sides). -/
+theorem C02_refines (cs : List Cmd) (hcs : ∀ c ∈ cs, c.WF) :
+    absState (runCmds [] cs) = Spec.runCmds [] cs ∧ outsCmds [] cs = Spec.outsCmds [] cs ∧
+    (∀ slot, get? (Spec.runCmds [] cs) slot = (get? (runCmds [] cs) slot).map abs) := by
+  have h0 : StateInv [] := fun _ _ h => by simp [get?] at h
+  have o0 : StateOrd [] := fun _ _ h => by simp [get?] at h
+  obtain ⟨h1, h2, _⟩ := abs_runCmds [] cs hcs h0 o0
+  refine ⟨h1, h2, ?_⟩
+  intro slot
+  have : absState [] = [] := rfl
+  rw [this] at h1
+  rw [← h1]
+  exact get?_map_val _ abs slot
+
+/-- one object and its mutating calls, from any weightedness -/
+theorem C02_refines_object (w : Bool) (ops : List Op) (hops : ∀ o ∈ ops, o.WF) :
+    abs (run { weighted := w } ops) = Spec.run { weighted := w } ops ∧
+    runOuts { weighted := w } ops = Spec.runOuts { weighted := w } ops :=
+  let r := abs_run { weighted := w } ops hops (inv_init w []) (ord_init w [])
+  ⟨r.1, r.2.1⟩
+
+/-- non-vacuity: the example history, computed on both sides -/
+example : absState (runCmds [] exampleHistory) = Spec.runCmds [] exampleHistory := by decide
+example : (get? (Spec.runCmds [] exampleHistory) 0).map (·.nodes) =
+      some [(7, [(2, 3)]), (1, []), (3, []), (5, []), (6, [])] ∧
+    (get? (Spec.runCmds [] exampleHistory) 0).map (·.edges) =
+      some [(([1], [3]), ((8 : Int), [(2, 5)])), (([3], [1]), ((4 : Int), []))] := by
+  decide
+
+/-- **Every query equals the query on the abstract object.**  For every reachable object `s` (any history, any
+prefix): nodes, nodes with metadata, membership, counts, hyperedges / hyperedges with metadata / weights under every
+order-size filter with and without `up_to`, membership / weight / metadata of one hyperedge (in any listing order),
+sources, targets, sizes (hence orders, size distribution, max size / order, uniformity, which are functions of the key
+list), per-node metadata, source-role / target-role / incident listings (as multisets, rejected in the same cases),
+degree, in-degree, out-degree, neighbours, isolation, the degree sequences and distribution, isolated nodes, and the
+two all-metadata listings (as multisets) coincide with the answers computed from `abs s` by filter / map.
+`Filt.both` (order and size together) is rejected on both sides wherever the implementation rejects it. -/
+theorem C02_refines_queries (s : Store) (hr : Reachable s) :
+    nodes s = (abs s).nodeList ∧ nodesMeta s = some (abs s).nodes ∧
+    (∀ n, checkNode s n = has (abs s).nodes n ∧ nodeMeta s n = (abs s).nodeMeta n) ∧
+    numNodes s = (abs s).nodes.length ∧ numEdges s = (abs s).edges.length ∧
+    keys s.edgeList = (abs s).keyList ∧ sizes s = (abs s).sizes ∧
+    sources s = (abs s).keyList.map (·.1) ∧ targets s = (abs s).keyList.map (·.2) ∧
+    s.weighted = (abs s).weighted ∧ s.hmeta = (abs s).hmeta ∧
+    (∀ f up, edges s f up = (abs s).edgesF f up ∧ edgesMeta s f up = (abs s).edgesMetaF f up ∧
+      weightsDict s f up = (abs s).weightsDictF f up) ∧
+    (∀ e, checkEdge s e = (abs s).checkEdge e ∧ getWeight s e = (abs s).getWeight e ∧ edgeMeta s e = (abs s).edgeMeta e) ∧
+    (∀ n f, OptPerm (sourceEdges s n f) ((abs s).sourceEdges n f) ∧ OptPerm (targetEdges s n f) ((abs s).targetEdges n f) ∧
+      OptPerm (incident s n f) ((abs s).incident n f) ∧
+      degree s n f = (abs s).degree n f ∧ inDegree s n f = (abs s).inDegree n f ∧ outDegree s n f = (abs s).outDegree n f ∧
+      neighbors s n f = (abs s).neighbors n f ∧ isIsolated s n f = (abs s).isIsolated n f) ∧
+    (∀ f, degreeSeq s f = (abs s).degreeSeq f ∧ inDegreeSeq s f = (abs s).inDegreeSeq f ∧
+      outDegreeSeq s f = (abs s).outDegreeSeq f ∧ degreeDist s f = (abs s).degreeDist f ∧
+      isolatedNodes s f = (abs s).isolatedNodes f) ∧
+    (allNodesMeta s).Perm ((abs s).nodes.map (·.2)) ∧ (allEdgesMeta s).Perm ((abs s).edges.map (·.2.2)) := by
+  have h := C02_inv s hr
+  have o : Ord s := by
+    obtain ⟨cs, slot, hcs, hs⟩ := hr
+    exact (abs_runCmds [] cs hcs (fun _ _ h => by simp [get?] at h) (fun _ _ h => by simp [get?] at h)).2.2 slot s hs
+  have qn := q_numbers s
+  refine ⟨q_nodes s, q_nodesMeta s h, fun n => ⟨q_checkNode s n, q_nodeMeta s h n⟩, qn.1, qn.2.1,
+    (abs_edges_keys s).symm, qn.2.2.1, qn.2.2.2.1, qn.2.2.2.2, rfl, rfl,
+    fun f up => ⟨q_edges s f up, q_edgesMeta s h f up, q_weightsDict s h f up⟩, q_edge s h, ?_, q_seqs s h,
+    q_allNodesMeta s h, q_allEdgesMeta s h o⟩
+  intro n f
+  have d := q_degrees s h n f
+  exact ⟨q_sourceEdges s h n f, q_targetEdges s h n f, q_incident s h n f, d.1, d.2.1, d.2.2,
+    q_neighbors s h n f, q_isIsolated s h n f⟩
+
+/-- non-vacuity: queries on the final object of the example and on its abstraction -/
+example : let s := (get? (runCmds [] exampleHistory) 0).getD {}
+    sourceEdges s 1 .all = some [([1], [3])] ∧ (abs s).sourceEdges 1 .all = some [([1], [3])] ∧
+    neighbors s 3 (.size 2) = some [1] ∧ (abs s).neighbors 3 (.size 2) = some [1] ∧
+    degreeSeq s .both = none ∧ (abs s).degreeSeq .both = none := by decide
